@@ -41,6 +41,10 @@ def to_bytes(p):
     return p if isinstance(p, bytes) else p.encode('utf-8')
 
 
+class _Accepted(Exception):
+    pass
+
+
 class Prop(object):
     ID = 'C12'
     LEVEL = 'model_checking'
@@ -293,6 +297,11 @@ class Prop(object):
                 histories.append(('kind %d, then specifier>salt>count' % other, pre + [('specifier', sp), ('salt', salt), ('count', coded)]))
                 # (fields a kind does not use keep what was assigned to them)
                 histories.append(('all fields, kind %d, then only the specifier' % other, [('encalg', SymmetricKeyAlgorithm(cid)), ('halg', HashAlgorithm(hid)), ('specifier', other), ('salt', salt), ('count', coded), ('specifier', sp)]))
+            # a refused assignment (a value outside the field's range, which raises) leaves the specifier as it was
+            full = [(f, vals[f]) for f in fields]
+            for bad in (('count', -1), ('count', 256), ('count', -16), ('count', 1 << 20), ('specifier', 99), ('specifier', -1), ('halg', 99), ('encalg', 99), ('count', None), ('halg', 'SHA999')):
+                histories.append(('all fields, then the refused assignment %s = %r' % bad, full + [('!' + bad[0], bad[1])]))
+                histories.append(('the refused assignment %s = %r, then all fields' % bad, [('!' + bad[0], bad[1])] + full))
             for hi, (hlabel, hist) in enumerate(histories):
                 if case.get('only') is not None and case['only'] != [sp, cname, coded, hi]:
                     continue
@@ -302,6 +311,13 @@ class Prop(object):
                     s2 = String2Key()
                     s2.usage = 255
                     for f, v in hist:
+                        if f.startswith('!'):
+                            try:
+                                setattr(s2, f[1:], v)
+                            except Exception:
+                                continue
+                            # (not refused in this tree: then it is an assignment like any other and this history says nothing)
+                            raise _Accepted()
                         setattr(s2, f, bytearray(v) if f == 'salt' else v)
                     got = bytes(s2.derive_key('order'))
                     octets = bytes(s2.__bytearray__())
@@ -310,6 +326,9 @@ class Prop(object):
                         bad, info = 'derived-key', 'derived %s, RFC 4880 3.7.1 gives %s' % (got.hex(), want.hex())
                     elif octets != want_octets:
                         bad, info = 'octets', 'specifier serialises as %s, expected %s' % (octets.hex(), want_octets.hex())
+                except _Accepted:
+                    r.outcomes['orders:assignment-not-refused'] += 1
+                    continue
                 except Exception as e:
                     bad, info = 'exception', repr(e)
                 r.outcomes['orders:' + (bad or 'ok')] += 1
